@@ -33,6 +33,23 @@ theorem bProps_flds_getElem (c : Ctx) (np : List Str) (io : Bool) (n : Nat) (ps 
         simp only [List.getElem?_cons_succ, List.getElem_cons_succ, this]
         rw [show n + 1 + j = n + (j + 1) by omega]
 
+/-- the field a flattened object reference produces -/
+theorem flattenRef_fld (c : Ctx) (np : List Str) (io : Bool) (n : Nat) (nm sc : Str) (f : FieldSkel)
+    (h : (bProperty c np io n (.mk nm true false (.objectRef [] sc true []))).fld = some f) :
+    f.number = n ∧ f.name = toSnake nm ∧ f.type = .message ∧ f.ext = b!"object+flatten" ∧ f.req = true := by
+  simp only [bProperty, bField, msgRefField] at h
+  cases hr : refField c [] sc false with
+  | mk e o =>
+    cases o with
+    | none => simp [hr] at h
+    | some t =>
+      simp only [hr] at h
+      have := finishProperty_fld _ _ _ _ _ _ _ _ _ _ h
+      refine ⟨this.1, this.2.1, this.2.2.2.2.2.2.2.1, ?_, ?_⟩
+      · rw [this.2.2.2.2.2.2.2.2.2]; rfl
+      · rw [this.2.2.2.2.2.2.1]; rfl
+
+
 namespace Entity
 
 /-- name of a command service: the declared name with the suffix `Command` (not doubled), or
